@@ -15,6 +15,7 @@
 """Utilities for serializing and deserializing state objects to and from JSON."""
 import functools
 import json
+import re
 from collections import deque
 from dataclasses import is_dataclass
 from datetime import datetime
@@ -81,10 +82,21 @@ def encode_to_dict(obj: Any, refs: Dict[int, Any]):
     else:
         # Otherwise, we need custom encoding with support for references
         if isinstance(obj, dict):
-            value = {
-                "__type": "dict",
-                "value": {k: encode_to_dict(v, refs) for k, v in obj.items()},
-            }
+            if all(isinstance(k, str) for k in obj):
+                value = {
+                    "__type": "dict",
+                    "value": {k: encode_to_dict(v, refs) for k, v in obj.items()},
+                }
+            else:
+                # JSON object keys are always strings, so a dict with other keys
+                # (e.g. int) is encoded as a list of key/value pairs.
+                value = {
+                    "__type": "dict",
+                    "items": [
+                        [encode_to_dict(k, refs), encode_to_dict(v, refs)]
+                        for k, v in obj.items()
+                    ],
+                }
         elif is_dataclass(obj):
             value = {
                 "__type": type(obj).__name__,
@@ -103,11 +115,21 @@ def encode_to_dict(obj: Any, refs: Dict[int, Any]):
         elif isinstance(obj, colang_ast_module.SpecType):
             value = {"__type": "SpecType", "value": obj.value}
         elif isinstance(obj, Action):
-            value = {"__type": "Action", "value": obj.to_dict()}
+            # The context and the arguments of an action can hold arbitrary values
+            # (e.g. sets, regular expressions), so they need to be encoded as well.
+            value = {
+                "__type": "Action",
+                "value": {k: encode_to_dict(v, refs) for k, v in obj.to_dict().items()},
+            }
         elif isinstance(obj, datetime):
             value = {"__type": "datetime", "value": obj.isoformat()}
         elif isinstance(obj, Enum):
             value = {"__type": "enum", "__class": type(obj).__name__, "value": obj.name}
+        elif isinstance(obj, re.Pattern):
+            value = {
+                "__type": "re.Pattern",
+                "value": {"pattern": obj.pattern, "flags": obj.flags},
+            }
         elif isinstance(obj, deque):
             value = {"__type": "deque", "value": [encode_to_dict(v, refs) for v in obj]}
         elif isinstance(obj, tuple):
@@ -180,8 +202,19 @@ def decode_from_dict(d: Any, refs: Dict[int, Any]):
             elif d_type == "tuple":
                 value = tuple(decode_from_dict(d["value"], refs))
 
+            elif d_type == "re.Pattern":
+                value = re.compile(d["value"]["pattern"], d["value"]["flags"])
+
             elif d_type == "dict":
-                value = {k: decode_from_dict(v, refs) for k, v in d["value"].items()}
+                if "items" in d:
+                    value = {
+                        decode_from_dict(k, refs): decode_from_dict(v, refs)
+                        for k, v in d["items"]
+                    }
+                else:
+                    value = {
+                        k: decode_from_dict(v, refs) for k, v in d["value"].items()
+                    }
 
             elif d_type == "set":
                 value = set(decode_from_dict(d["value"], refs))
